@@ -285,6 +285,8 @@ type bodyCtx struct {
 	// parameters (and receiver) stand for the argument expressions of that call
 	alias  map[types.Object]ast.Expr
 	inline int // nesting depth of helper bodies being walked
+	// slotAlias: a variable that holds the value read by a comma-ok lookup M[i] → the key of that slot
+	slotAlias map[types.Object]string
 }
 
 // obj resolves an identifier to its object, looking through a helper parameter that stands for a plain variable.
@@ -546,6 +548,10 @@ func (c *bodyCtx) isMaxJoin(lhs *ast.IndexExpr, rhs ast.Expr) bool {
 				if exprKey(ast.Unparen(inner)) == want {
 					found = true
 				}
+				// cur, ok := M[i] … max(cur, w): the value read by the comma-ok lookup of the same slot
+				if id, ok := ast.Unparen(inner).(*ast.Ident); ok && c.slotAlias != nil && c.slotAlias[c.obj(id)] == want {
+					found = true
+				}
 			}
 		}
 		return true
@@ -555,10 +561,25 @@ func (c *bodyCtx) isMaxJoin(lhs *ast.IndexExpr, rhs ast.Expr) bool {
 
 // joinIf recognises: if _, ok := M[i]; !ok { M[i] = v } else { M[i] = max(M[i], w) }  (guarded first
 // store may itself be nested in a further pure condition, which only drops contributions).
-func (c *bodyCtx) joinIf(s *ast.IfStmt) (string, bool) {
-	as, ok := s.Init.(*ast.AssignStmt)
+func (c *bodyCtx) joinIf(s *ast.IfStmt) (string, bool) { return c.joinIfAfter(s, nil) }
+
+// joinIfAfter: the same with the comma-ok lookup written as the statement before the if (cur, ok := M[i]; if !ok …).
+func (c *bodyCtx) joinIfAfter(s *ast.IfStmt, prev ast.Stmt) (string, bool) {
+	init := s.Init
+	if init == nil {
+		init = prev
+	}
+	as, ok := init.(*ast.AssignStmt)
 	if !ok || len(as.Lhs) != 2 || len(as.Rhs) != 1 || s.Else == nil {
 		return "", false
+	}
+	if cur, isID := as.Lhs[0].(*ast.Ident); isID && cur.Name != "_" {
+		if ix, isIx := as.Rhs[0].(*ast.IndexExpr); isIx {
+			if c.slotAlias == nil {
+				c.slotAlias = map[types.Object]string{}
+			}
+			c.slotAlias[c.obj(cur)] = exprKey(ix)
+		}
 	}
 	ix, ok := as.Rhs[0].(*ast.IndexExpr)
 	if !ok {
@@ -649,8 +670,16 @@ func (c *bodyCtx) walk(stmts []ast.Stmt, joinTarget string) {
 				c.problem(s.Pos(), "statement has an effect whose order sensitivity is unknown: "+why)
 			}
 		case *ast.IfStmt:
-			if target, ok := c.joinIf(s); ok {
-				c.effect("join(" + lastName(s.Init.(*ast.AssignStmt).Rhs[0]) + ")")
+			var prevStmt ast.Stmt
+			if s.Init == nil && i > 0 {
+				prevStmt = stmts[i-1]
+			}
+			if target, ok := c.joinIfAfter(s, prevStmt); ok {
+				initStmt := s.Init
+				if initStmt == nil {
+					initStmt = prevStmt
+				}
+				c.effect("join(" + lastName(initStmt.(*ast.AssignStmt).Rhs[0]) + ")")
 				// the !ok branch: stores to the same slot (possibly under a further pure condition) and nothing else order-sensitive
 				c.walk(s.Body.List, target)
 				continue
